@@ -58,7 +58,7 @@ def check_lines(L, M, case, env=None):
     text = noisy.text_of(L)
     M.case(h64(text))
     sim = noisy.simulate(L, False)
-    o = env.parse(text, M) if env is not None else observe.parse_observed(text)
+    o = env.parse(text, M) if env is not None else observe.parse_observed(text, as_scanner=(M.cases % 4 == 0))
     apply_parse_monitors(o, M, dict(case, text=text), G_DECIDING)
     cover_transitions(o, M)
     if o.log is not None:
@@ -174,11 +174,11 @@ def run_shard(spec, M):
         from .base import run_repo_tests_under_monitors
         run_repo_tests_under_monitors(M, G_DECIDING)
     elif fam == "corpus":
-        for g in corpus.good():
-            if g["tokens"] is None:
-                continue
+        goods = [g for g in corpus.good() if g["tokens"] is not None]
+        for g in goods:
             M.case(h64(g["text"]))
             check_listing(g["text"], M, {"kind": "listing", "text": g["text"]}, golden=g["tokens"], path=g["path"])
+        run_cli(goods, M)
     elif fam == "listings":
         for i in range(spec["start"], spec["start"] + spec["n"]):
             r = rng(spec["seed"], ID, "listings", i)
@@ -214,6 +214,31 @@ def check_kinds(kinds, M):
         M.violation("C18.kinds_lines", {"what": "scanner read count differs from lines + EOF", "reads": sc.reads, "kinds": kinds}, case)
     if evs != [tuple(e) for e in want_ev]:
         M.violation("C18.kinds_lines", {"what": "kind-level parse: builder events differ from the grammar", "kinds": kinds}, case)
+
+
+def run_cli(goods, M):
+    """scripts/generate_tokens.py on real files: one file per call (as the Makefile does) and several files on one
+    command line (one shared parser/formatter): the printed listings must equal the golden .tokens files."""
+    import subprocess
+    import sys
+    from ..common import PY_ROOT
+    env = dict(observe.os.environ, PYTHONPATH=PY_ROOT, PYTHONDONTWRITEBYTECODE="1", PYTHONIOENCODING="utf-8")
+    groups = [[g] for g in goods[:4]] + [goods[4:9], goods[::7]]
+    for grp in groups:
+        pr = subprocess.run([sys.executable, "-B", "-m", "scripts.generate_tokens"] + [g["path"] for g in grp], cwd=PY_ROOT, env=env,
+                            capture_output=True, timeout=300)
+        M.count("cli_runs")
+        want = "".join(g["tokens"].rstrip("\n") + "\n" for g in grp)
+        got = pr.stdout.decode("utf8", "replace")
+        case = {"kind": "cli", "files": [g["path"] for g in grp]}
+        if pr.returncode != 0:
+            M.violation("C18.cli", {"what": "scripts.generate_tokens failed", "stderr": pr.stderr.decode("utf8", "replace")[-300:]}, case)
+        elif got != want:
+            a, b = got.split("\n"), want.split("\n")
+            j = next((x for x, (u, v) in enumerate(zip(a, b)) if u != v), min(len(a), len(b)))
+            M.violation("C18.cli", {"what": "scripts.generate_tokens prints a listing that differs from the golden .tokens files",
+                                    "files": len(grp), "first_difference_at_output_line": j + 1, "got": a[j:j + 2], "want": b[j:j + 2],
+                                    "lines_got": len(a), "lines_want": len(b)}, case)
 
 
 def fmt(t):
@@ -271,6 +296,9 @@ def check_listing(text, M, case, golden=None, path=None):
 
 def replay(case, M):
     k = case["kind"]
+    if k == "cli":
+        run_cli([g for g in corpus.good() if g["tokens"] is not None], M)
+        return
     if k == "threshold":
         run_shard({"family": "thresholds", "tier": "thorough", "part": 0, "parts": 1, "seed": 0}, M)
         return
